@@ -38,8 +38,9 @@ Ceiling
                             `follows_selected_unique`: `SegSpec` determines the stream (equality form).
 
 Strength: full for the model.  The child graph is abstracted as a Mealy machine with one wake-up time; what
-the model does not contain (target-link sampling of nested collections, REF / forwarding-terminal outputs,
-passive inputs) is observed by the trace monitor of `tools/props/c12.py` only.
+the model does not contain (target-link sampling of nested collections, REF / forwarding-terminal outputs)
+is observed by the trace monitor of `tools/props/c12.py` only.  Passive / optional inputs and the per-binding
+sampled start are in the model (`Branch.passive`, `Branch.sampledStart`); their theorems: `Props/C12Sample.lean`.
 -/
 namespace HgVerif.Switch
 variable {σ : Type}
